@@ -38,7 +38,7 @@ KEYS = ["a", "b.txt", "a/b.txt", "a/c/d.json", "e/f", "x y.txt", "é.csv", "a/c"
 FILE_KEYS = ["b.txt", "a/b.txt", "a/c/d.json", "e/f", "x y.txt", "é.csv"]      # never used as directories
 DIR_KEYS = ["a", "a/c", "e", "g/h", "g"]
 CACHE_KEYS = ["c20_echo", "c20_echo-a/c20_upper", "a b", "x/y.txt", "c20_num-1", "é"]
-MASK = ("updated", "created")
+MASK = ("updated", "created", "filesystem_path")
 _registered = False
 
 
@@ -208,7 +208,29 @@ def canon(v):
 
 
 def snap_store(s):
-    return canon(dict(dirs=sorted(s.directories), data={k: v.hex() if isinstance(v, (bytes, bytearray)) else repr(v) for k, v in s.data.items()}, metadata=s.metadata))
+    if hasattr(s, "directories"):
+        return canon(dict(dirs=sorted(s.directories), data={k: v.hex() if isinstance(v, (bytes, bytearray)) else repr(v) for k, v in s.data.items()}, metadata=s.metadata))
+    # any other store (FileStore): through its own interface
+    out = {}
+    for k in sorted(s.keys()):
+        d = bool(s.is_dir(k))
+        try:
+            md = s.get_metadata(k)
+        except Exception:
+            md = "?"
+        out[k] = dict(dir=d, data=None if d else s.get_bytes(k).hex(), metadata=md)
+    return canon(out)
+
+
+def store_pair(kind):
+    """(served store, twin driven directly, cleanup)"""
+    import liquer.store as ST
+    if kind == "mem":
+        return ST.MemoryStore(), ST.MemoryStore(), (lambda: None)
+    import tempfile, shutil
+    d = common.scratch_dir("liquer-verif-c20-")
+    os.makedirs(os.path.join(d, "served")); os.makedirs(os.path.join(d, "twin"))
+    return ST.FileStore(os.path.join(d, "served")), ST.FileStore(os.path.join(d, "twin")), (lambda: shutil.rmtree(d, ignore_errors=True))
 
 
 def snap_cache(c):
@@ -271,7 +293,8 @@ def store_endpoint(client, op, k, arg):
     j = r.get_json()
     if j.get("status") != "OK":
         return "err"
-    return "ok " + canon(j[field] if field else None)
+    v = j[field] if field else None
+    return "ok " + canon(sorted(v) if field in ("keys", "listdir") and isinstance(v, list) else v)
 
 
 def store_library(s, op, k, arg):
@@ -291,14 +314,19 @@ def store_library(s, op, k, arg):
     if op == "putm":
         return lib(lambda: s.store_metadata(k, copy.deepcopy(arg)))
     if op == "keys":
-        return lib(lambda: s.keys())
+        return lib(lambda: sorted(s.keys()))
+    if op == "listdir":
+        def ld():
+            r = s.listdir(k)
+            return sorted(r) if isinstance(r, list) else r
+        return lib(ld)
     return lib(lambda: getattr(s, op)(k))
 
 
-def run_store_hist(client, h):
+def run_store_hist(client, h, kind="mem"):
     """None or (index, description) of the first divergence"""
     import liquer.store as ST
-    served, twin = ST.MemoryStore(), ST.MemoryStore()
+    served, twin, cleanup = store_pair(kind)
     old = ST.get_store()
     ST.set_store(served)
     try:
@@ -311,9 +339,10 @@ def run_store_hist(client, h):
                 return i, "store endpoint %s(%r) reports %s, the library call on the twin %s" % (op, k, a[:200], b[:200])
             sa, sb = snap_store(served), snap_store(twin)
             if sa != sb:
-                return i, "after store endpoint %s(%r) the served store is %s, the twin %s" % (op, k, sa[:300], sb[:300])
+                return i, "after store endpoint %s(%r) the served store (%s) is %s, the twin %s" % (op, k, kind, sa[:300], sb[:300])
     finally:
         ST.set_store(old)
+        cleanup()
     return None
 
 
@@ -580,10 +609,10 @@ def remote_call(s, op, k, arg):
     return lib(lambda: getattr(s, op)(k))
 
 
-def run_remote_hist(client, h):
+def run_remote_hist(client, h, kind="mem"):
     import liquer.store as ST
     from liquer.remote_store import RemoteStore
-    served, twin = ST.MemoryStore(), ST.MemoryStore()
+    served, twin, cleanup = store_pair(kind)
     old = ST.get_store()
     ST.set_store(served)
     saved = patch_requests(client)
@@ -602,6 +631,7 @@ def run_remote_hist(client, h):
     finally:
         unpatch_requests(saved)
         ST.set_store(old)
+        cleanup()
     return None
 
 
@@ -681,10 +711,14 @@ def run(ctx):
             ops = {o for o, _, _ in h}
             ctx.case("%s:%s" % (name, hist_key(h)) if ops & {"put", "putm", "seed", "putmeta"} and ops & {"remove", "removedir", "clean"} else None)
             ctx.count(name + " history length", str(len(h)))
-            r = runner(client, h)
+            # every fourth store history is served from a directory store (its keys() is a generator, its listings come from the file system)
+            kw = dict(kind="file") if name == "store" and i % 4 == 3 else {}
+            if kw:
+                ctx.count("served store", "FileStore")
+            r = runner(client, h, **kw)
             if r is not None:
-                hs, rs_ = shrink_hist(lambda x: runner(client, x), h)
-                ctx.violation("%s-hist:%s" % (name, hist_key(hs)), (rs_ or r)[1], dict(kind=name + "-hist", history=hs))
+                hs, rs_ = shrink_hist(lambda x: runner(client, x, **kw), h)
+                ctx.violation("%s-hist:%s" % (name, hist_key(hs)), (rs_ or r)[1], dict(kind=name + "-hist", history=hs, **({"store": "file"} if kw else {})))
             if i == 0:
                 ctx.sample(dict(kind=name + " endpoint history", history=hist_key(h)))
 
@@ -714,10 +748,11 @@ def run(ctx):
         h = gen_remote_hist(rng, 15)
         ops = {o for o, _, _ in h}
         ctx.case("remote:" + hist_key(h) if "store" in ops and ops & {"remove", "removedir", "removedir_r"} else None)
-        r = run_remote_hist(client, h)
+        kind = "file" if i % 4 == 3 else "mem"
+        r = run_remote_hist(client, h, kind)
         if r is not None:
-            hs, rs_ = shrink_hist(lambda x: run_remote_hist(client, x), h)
-            ctx.violation("remote:%s" % hist_key(hs), (rs_ or r)[1], dict(kind="remote-hist", history=hs))
+            hs, rs_ = shrink_hist(lambda x: run_remote_hist(client, x, kind), h)
+            ctx.violation("remote:%s" % hist_key(hs), (rs_ or r)[1], dict(kind="remote-hist", history=hs, store=kind))
     ctx.count("histories", "RemoteStore", nr)
 
 
@@ -760,13 +795,13 @@ def replay_case(client, case):
         got = r.get_json()["query"] if r.status_code == 200 else None
         return None if got == t else "path %r reaches the view as %r" % (t, got)
     if k == "store-hist":
-        r = run_store_hist(client, case["history"])
+        r = run_store_hist(client, case["history"], "file" if case.get("store") == "file" else "mem")
         return r and r[1]
     if k == "cache-hist":
         r = run_cache_hist(client, case["history"])
         return r and r[1]
     if k == "remote-hist":
-        r = run_remote_hist(client, case["history"])
+        r = run_remote_hist(client, case["history"], case.get("store", "mem"))
         return r and r[1]
     if k == "gate":
         o = run_gate(client, case["channel"], case["history"], remote_payloads())
